@@ -43,7 +43,9 @@ func (i *Info) FromStartElement(s xml.StartElement) error {
 			if err != nil {
 				return BadFormat
 			}
-		case xml.Name{Space: "xml", Local: "lang"}:
+		case xml.Name{Space: "xml", Local: "lang"}, xml.Name{Space: "http://www.w3.org/XML/1998/namespace", Local: "lang"}:
+			// encoding/xml translates the reserved xml prefix to its namespace URL;
+			// the literal prefix only shows up in raw tokens.
 			i.Lang = attr.Value
 		}
 	}
